@@ -17,7 +17,7 @@ Add(d, tags) == IF Cardinality(d) < 60 THEN d \cup {<<t, l, run, "-">> : t \in t
 SP(n) == [st |-> n.st, depth |-> n.depth, value |-> n.value, ub |-> n.ub, path |-> n.path]
 Full == level = "full"
 Isolated == ~cfg.cache /\ ~cfg.dom
-W0 == [node |-> None, sec |-> "-", bev |-> NegInf, phase |-> "idle", cand |-> None, inp |-> None, res |-> None, exited |-> FALSE, parked |-> FALSE]
+W0 == [node |-> None, sec |-> "-", bev |-> NegInf, phase |-> "idle", cand |-> None, inp |-> None, res |-> None, exited |-> FALSE, parked |-> FALSE, badsol |-> FALSE]
 EmptyP == [fringe |-> EmptyBag, table |-> CEmpty, ongoing |-> 0, explored |-> 0, bestLb |-> NegInf, hasSol |-> FALSE, bestUb |-> PosInf, abort |-> FALSE,
            open |-> <<>>, ongoingBy |-> <<>>, first |-> 0, ubVec |-> <<>>]
 Init == /\ l = 1 /\ I = None /\ HT = None /\ cfg = None /\ run = 0 /\ role = "-" /\ level = "full" /\ P = EmptyP
@@ -83,7 +83,9 @@ TLocked ==
                [] e.site = "abort" -> IF wk[w].node # None THEN [P1 EXCEPT !.abort = TRUE, !.bestUb = PAbortUb(P1, w, wk[w].node.ub)] ELSE [P1 EXCEPT !.abort = TRUE]
                [] OTHER -> P1
      /\ LET quiet == e.site = "finish" /\ P'.ongoing = 0 /\ ~fired /\ ~P'.abort IN
-        /\ devs' = Add(devs, SnapTags(e) \cup (IF quiet THEN ThresholdTags(P'.bestLb) ELSE {}))
+        /\ devs' = Add(devs, SnapTags(e) \cup (IF quiet THEN ThresholdTags(P'.bestLb) ELSE {})
+                             \* maybe_update_best adopts the diagram's best exact solution: it must be a feasible solution of that value
+                             \cup Tag(e.site = "update_best" /\ wk[w].bev > P1.bestLb /\ wk[w].badsol, "C02 infeasible-solution-adopted"))
         /\ pendW' = (IF e.site = "finish" /\ P'.ongoing = 0 THEN {} ELSE pendW)
   /\ Same2 /\ UNCHANGED <<fired, primalMax, ever>>
 
@@ -191,7 +193,8 @@ TCompiled ==
   /\ Ev("compiled")
   /\ LET e == Rec[l]  w == Me
          r == IF e.ok THEN [ok |-> TRUE, exact |-> e.exact, bv |-> e.bv, bev |-> e.bev, bsol |-> e.bsol, besol |-> e.besol] ELSE [ok |-> FALSE] IN
-     /\ wk' = [wk EXCEPT ![w].res = r, ![w].bev = IF e.ok THEN e.bev ELSE NegInf]
+     /\ wk' = [wk EXCEPT ![w].res = r, ![w].bev = IF e.ok THEN e.bev ELSE NegInf,
+                         ![w].badsol = e.ok /\ e.besol.some /\ ~FeasibleSolution(I, e.besol.decs, e.bev)]
      /\ devs' = Add(devs, (IF Isolated /\ wk[w].inp # None THEN CompileTags(I, HT, wk[w].inp, r)
                            ELSE IF e.ok THEN Tag(e.besol.some /\ ~FeasibleSolution(I, e.besol.decs, e.bev), "C02 incumbent-candidate-infeasible") ELSE {}))
   /\ Same /\ UNCHANGED <<P, fired, primalMax>>
